@@ -221,7 +221,7 @@ class ExcelModel:
                     fdir, _decode_path(el.file_link.Target)
                 )), self.basedir))
                 for i, el in enumerate(book._external_links)
-                if el.file_link.Target.endswith('.xlsx')
+                if el.file_link.Target.lower().endswith('.xlsx')
             }
             data['external_links'] = {
                 k: (_encode_path(d), f)
